@@ -126,8 +126,69 @@ def check_queries(n, t):
     return fails
 
 
+def check_queries_wide(n, t, probes):
+    """Closed forms for a canonical interval of any width: cardinality = span div stride + 1; unsigned / signed extrema from the
+    lattice points next to the poles; membership by offset arithmetic; eval(k) for small k."""
+    a = sg.make(n, t)
+    s_, lb, ub = t
+    mod = 1 << n
+    span = (ub - lb) % mod
+    k = 1 if s_ == 0 else span // s_ + 1
+    fails = []
+
+    def bad(clause, **obs):
+        fails.append((f"query:{clause}:wide", {"result": clause, **{kk: repr(v)[:80] for kk, v in obs.items()}}))
+
+    def member(v):
+        off = (v - lb) % mod
+        return off <= span and (s_ == 0 and off == 0 or s_ != 0 and off % s_ == 0)
+
+    def first_at_or_after(p):
+        """least member m with (m - p) mod 2^n minimal, i.e. the first lattice point met going up from p (wrapping)."""
+        if member(p):
+            return p
+        off = (p - lb) % mod
+        if off > span:
+            return lb  # p is outside the arc: the next member going up is the lower bound
+        return (lb + (off // s_ + 1) * s_) % mod if (off // s_ + 1) * s_ <= span else lb
+
+    def last_at_or_before(p):
+        if member(p):
+            return p
+        off = (p - lb) % mod
+        if off > span:
+            return (lb + (span // s_) * s_) % mod if s_ else lb
+        return (lb + (off // s_) * s_) % mod
+
+    try:
+        if a.cardinality != k:
+            bad("cardinality", got=a.cardinality, want=k)
+        half = mod >> 1
+        want = {(False, "min"): first_at_or_after(0), (False, "max"): last_at_or_before(mod - 1),
+                (True, "min"): _sgn(first_at_or_after(half), n), (True, "max"): _sgn(last_at_or_before(half - 1), n)}
+        for (signed, which), w in want.items():
+            got = getattr(a, which)(signed=signed)
+            if got != w:
+                bad(f"{which}:{'signed' if signed else 'unsigned'}", got=got, want=w)
+        for v in probes:
+            if bool(a.solution(v)) != member(v % mod):
+                bad("solution", v=v, got=a.solution(v))
+                break
+        for cnt in (1, 3):
+            r = a.eval(cnt)
+            if len(r) != min(cnt, k) or len(set(r)) != len(r) or any(not member(v % mod) for v in r):
+                bad("eval", n=cnt, got=r)
+        if bool(a.is_top) != (k == mod):
+            bad("is_top", got=a.is_top)
+    except Exception as e:  # noqa: BLE001
+        fails.append((f"query:exception:{type(e).__name__}:wide", {"result": f"exc:{type(e).__name__}", "exc": repr(e)[:160]}))
+    return fails
+
+
 def replay(case):
     n = case["bits"]
+    if case["op"] == "queries-wide":
+        return check_queries_wide(n, tuple(case["sis"][0]), case["probes"])
     if case["op"] == "queries":
         return check_queries(n, tuple(case["sis"][0]))
     objs = [sg.make(n, tuple(t)) for t in case["sis"]]
@@ -187,8 +248,12 @@ def shards(tier, seed):
 
 @st.composite
 def wide_case(draw):
-    n = draw(st.sampled_from((8, 8, 16, 32, 64)))
-    k = draw(st.integers(0, 9))
+    n = draw(st.sampled_from((8, 8, 16, 32, 64, 56, 64)))
+    k = draw(st.integers(0, 12))
+    if k >= 10:
+        t = draw(c21.wide_si(n))
+        probes = c21._sample_members(draw, n, tuple(t)) + [draw(st.integers(0, (1 << n) - 1)) for _ in range(4)] + [(t[1] - 1) % (1 << n), (t[2] + 1) % (1 << n), (t[1] + 1) % (1 << n)]
+        return {"op": "queries-wide", "bits": n, "sis": [list(t)], "probes": probes}
     op = draw(st.sampled_from(ALL_PAIR_OPS)) if k < 7 else "lub3"
     cnt = 2 if op != "lub3" else draw(st.integers(3, 4))
     sis, mem = [], []
@@ -284,7 +349,7 @@ def run_shard(shard, ctx):
         return
 
     def body(case):
-        fails = _wide_join(case) if case["op"] != "lub3" else _wide_join(case)
+        fails = check_queries_wide(case["bits"], tuple(case["sis"][0]), case["probes"]) if case["op"] == "queries-wide" else _wide_join(case)
         c = {k: v for k, v in case.items() if k != "members"}
         ctx.case(c, True, [f"op:{case['op']}", f"width:{case['bits']}", "wide"], sample=c)
         for f in fails[:1]:
